@@ -23,6 +23,7 @@ use lightning::chain::{BlockLocator, ChannelMonitorUpdateStatus};
 use lightning::io;
 use lightning::ln::functional_test_utils::*;
 use lightning::util::persist::{
+	KVStore,
 	KVStoreSync, MonitorName, MonitorUpdatingPersister,
 	CHANNEL_MONITOR_PERSISTENCE_PRIMARY_NAMESPACE, CHANNEL_MONITOR_PERSISTENCE_SECONDARY_NAMESPACE,
 	CHANNEL_MONITOR_UPDATE_PERSISTENCE_PRIMARY_NAMESPACE, KVSTORE_NAMESPACE_KEY_MAX_LEN,
@@ -41,7 +42,9 @@ use rand::{Rng, SeedableRng};
 use serde_json::{json, Value};
 use std::collections::{BTreeMap, BTreeSet, HashMap};
 use std::panic::{catch_unwind, AssertUnwindSafe};
+use std::future::Future;
 use std::path::PathBuf;
+use std::pin::Pin;
 use std::sync::atomic::{AtomicU64, Ordering};
 use std::sync::{Arc, Barrier, Mutex};
 use vharness::trace::TraceWriter;
@@ -59,6 +62,7 @@ struct Args {
 	seed: u64,
 	ops: usize,
 	summary: Option<String>,
+	async_random: usize,
 }
 
 fn parse_args() -> Args {
@@ -72,6 +76,7 @@ fn parse_args() -> Args {
 		seed: 1,
 		ops: 40,
 		summary: None,
+		async_random: 0,
 	};
 	let v: Vec<String> = std::env::args().collect();
 	let mut i = 1;
@@ -87,6 +92,7 @@ fn parse_args() -> Args {
 			"--seed" => a.seed = nxt().parse().unwrap(),
 			"--ops" => a.ops = nxt().parse().unwrap(),
 			"--summary" => a.summary = Some(nxt()),
+			"--async-random" => a.async_random = nxt().parse().unwrap(),
 			x => panic!("unknown argument {}", x),
 		}
 		i += 2;
@@ -207,7 +213,7 @@ fn exec_fs_op(
 		FsOp::List(n) => ("list", *n, 0, false),
 	};
 	let g0 = gseq.fetch_add(1, Ordering::SeqCst);
-	out.push(FsEv { g: g0, v: json!({"ev":"call","t":t,"ts":ts,"op":name,"k":k,"v":v,"lazy":lazy,"g":g0}) });
+	out.push(FsEv { g: g0, v: json!({"ev":"call","t":t,"ts":ts,"op":name,"k":k,"v":v,"lazy":lazy,"tk":0,"g":g0}) });
 	let r = catch_unwind(AssertUnwindSafe(|| -> (i64, Vec<i64>) {
 		match op {
 			FsOp::Write(k, v) => {
@@ -289,15 +295,286 @@ fn emit_fs_run(
 	tw: &mut TraceWriter, run: usize, kind: &str, lay: usize, threads: usize, big: bool,
 	keys: &[KeySpec], mut evs: Vec<FsEv>,
 ) {
+	emit_fs_run_mode(tw, run, kind, lay, threads, big, keys, &mut evs, "sync")
+}
+
+fn emit_fs_run_mode(
+	tw: &mut TraceWriter, run: usize, kind: &str, lay: usize, threads: usize, big: bool,
+	keys: &[KeySpec], evs: &mut Vec<FsEv>, mode: &str,
+) {
+	let mut evs = std::mem::take(evs);
 	evs.sort_by_key(|e| e.g);
 	let ns: Vec<usize> = keys.iter().map(|k| k.ns).collect();
 	tw.emit(json!({"run":run,"ev":"reset","store":kind,"layout":lay,"threads":threads,"big":big,
-		"nk":keys.len(),"ns":ns}));
+		"nk":keys.len(),"ns":ns,"mode":mode}));
 	for e in evs {
 		let mut v = e.v;
 		v["run"] = json!(run);
 		tw.emit(v);
 	}
+}
+
+
+// ---- the asynchronous KVStore API: operations are ISSUED (the call that creates the future) in
+// ---- one order and their futures are driven in another
+
+const ASYNC_SLOTS: usize = 6;
+type OpFut = Pin<Box<dyn Future<Output = (i64, Vec<i64>)> + Send>>;
+
+fn issue_async<S: KVStore>(store: &S, keys: &[KeySpec], nss: &[(String, String)], op: &FsOp, big: bool) -> OpFut {
+	match op {
+		FsOp::Write(k, v) => {
+			let ks = &keys[*k - 1];
+			let f = KVStore::write(store, &ks.pns, &ks.sns, &ks.key, value_bytes(*v, big));
+			Box::pin(async move {
+				match f.await {
+					Ok(()) => (0, vec![]),
+					Err(_) => (-2, vec![]),
+				}
+			})
+		},
+		FsOp::Read(k) => {
+			let ks = &keys[*k - 1];
+			let f = KVStore::read(store, &ks.pns, &ks.sns, &ks.key);
+			Box::pin(async move {
+				match f.await {
+					Ok(b) => (decode_value(&b, big), vec![]),
+					Err(e) if e.kind() == io::ErrorKind::NotFound => (0, vec![]),
+					Err(_) => (-2, vec![]),
+				}
+			})
+		},
+		FsOp::Remove(k, lazy) => {
+			let ks = &keys[*k - 1];
+			let f = KVStore::remove(store, &ks.pns, &ks.sns, &ks.key, *lazy);
+			Box::pin(async move {
+				match f.await {
+					Ok(()) => (0, vec![]),
+					Err(_) => (-2, vec![]),
+				}
+			})
+		},
+		FsOp::List(n) => {
+			let unknown = ("unknown_ns".to_string(), "".to_string());
+			let (p, s) = if *n == 0 { &unknown } else { &nss[*n - 1] };
+			let f = KVStore::list(store, p, s);
+			let keys: Vec<KeySpec> = keys.to_vec();
+			let n = *n;
+			Box::pin(async move {
+				match f.await {
+					Ok(names) => {
+						let mut idx: Vec<i64> = names
+							.iter()
+							.map(|nm| {
+								keys.iter()
+									.position(|ks| ks.ns == n && &ks.key == nm)
+									.map(|i| i as i64 + 1)
+									.unwrap_or(-1)
+							})
+							.collect();
+						idx.sort();
+						(0, idx)
+					},
+					Err(_) => (-2, vec![]),
+				}
+			})
+		},
+	}
+}
+
+struct Issued {
+	slot: usize,
+	name: &'static str,
+	k: usize,
+	fut: Option<OpFut>,
+}
+
+/// One asynchronous run: `plan` is a list of steps, Issue(op) or Drive(indices of issued
+/// operations, concurrently?).  Every issue gets the next ticket `tk` (the issue order).
+enum AStep {
+	Issue(FsOp),
+	Drive(Vec<usize>, bool), // indices into the issue list (0-based); true = spawn all, then join
+}
+
+fn run_async<S: KVStore + Send + Sync + 'static>(
+	rt: &tokio::runtime::Runtime, store: Arc<S>, keys: &[KeySpec], nss: &[(String, String)], plan: &[AStep],
+	big: bool, evs: &mut Vec<FsEv>,
+) -> usize {
+	let gseq = Arc::new(AtomicU64::new(1));
+	let mut issued: Vec<Issued> = Vec::new();
+	let mut busy = [false; ASYNC_SLOTS + 1];
+	let mut nops = 0;
+	for step in plan {
+		match step {
+			AStep::Issue(op) => {
+				let slot = match (1..=ASYNC_SLOTS).find(|s| !busy[*s]) {
+					Some(s) => s,
+					None => continue,
+				};
+				busy[slot] = true;
+				nops += 1;
+				let (name, k, v, lazy) = match op {
+					FsOp::Write(k, v) => ("write", *k, *v as i64, false),
+					FsOp::Read(k) => ("read", *k, 0, false),
+					FsOp::Remove(k, l) => ("remove", *k, 0, *l),
+					FsOp::List(n) => ("list", *n, 0, false),
+				};
+				let tk = issued.len() + 1;
+				let g0 = gseq.fetch_add(1, Ordering::SeqCst);
+				evs.push(FsEv { g: g0, v: json!({"ev":"call","t":slot,"ts":tk,"op":name,"k":k,"v":v,"lazy":lazy,"tk":tk,"g":g0}) });
+				let fut = match catch_unwind(AssertUnwindSafe(|| issue_async(&*store, keys, nss, op, big))) {
+					Ok(f) => Some(f),
+					Err(_) => {
+						let g = gseq.fetch_add(1, Ordering::SeqCst);
+						evs.push(FsEv { g, v: json!({"ev":"panic","t":slot,"ts":tk,"g":g}) });
+						None
+					},
+				};
+				issued.push(Issued { slot, name, k, fut });
+			},
+			AStep::Drive(idx, concurrent) => {
+				let mut handles = Vec::new();
+				for i in idx {
+					if *i >= issued.len() {
+						continue;
+					}
+					let fut = match issued[*i].fut.take() {
+						Some(f) => f,
+						None => continue,
+					};
+					let gs = Arc::clone(&gseq);
+					let wrapped = async move {
+						let r = fut.await;
+						let g = gs.fetch_add(1, Ordering::SeqCst);
+						(r, g)
+					};
+					if *concurrent {
+						handles.push((*i, rt.spawn(wrapped)));
+					} else {
+						let r = catch_unwind(AssertUnwindSafe(|| rt.block_on(wrapped)));
+						finish_async(&mut issued[*i], *i + 1, r.ok(), &gseq, evs);
+						busy[issued[*i].slot] = false;
+					}
+				}
+				for (i, h) in handles {
+					let r = catch_unwind(AssertUnwindSafe(|| rt.block_on(h)));
+					let r = match r {
+						Ok(Ok(x)) => Some(x),
+						_ => None,
+					};
+					finish_async(&mut issued[i], i + 1, r, &gseq, evs);
+					busy[issued[i].slot] = false;
+				}
+			},
+		}
+	}
+	nops
+}
+
+fn finish_async(
+	is: &mut Issued, tk: usize, r: Option<((i64, Vec<i64>), u64)>, gseq: &AtomicU64, evs: &mut Vec<FsEv>,
+) {
+	match r {
+		Some(((res, ks), g)) => evs.push(FsEv {
+			g,
+			v: json!({"ev":"ret","t":is.slot,"ts":tk,"op":is.name,"k":is.k,"res":res,"keys":ks,"g":g}),
+		}),
+		None => {
+			let g = gseq.fetch_add(1, Ordering::SeqCst);
+			evs.push(FsEv { g, v: json!({"ev":"panic","t":is.slot,"ts":tk,"g":g}) });
+		},
+	}
+}
+
+fn run_async_on(
+	rt: &tokio::runtime::Runtime, kind: &str, dir: &PathBuf, keys: &[KeySpec], nss: &[(String, String)],
+	plan: &[AStep], big: bool, evs: &mut Vec<FsEv>,
+) -> usize {
+	let _ = std::fs::remove_dir_all(dir);
+	if kind == "v1" {
+		run_async(rt, Arc::new(FilesystemStore::new(dir.clone())), keys, nss, plan, big, evs)
+	} else {
+		run_async(rt, Arc::new(FilesystemStoreV2::new(dir.clone()).expect("v2 store")), keys, nss, plan, big, evs)
+	}
+}
+
+/// plan of a TLC script: {"op":"await","k":i} drives the operation issued by ops[i-1]
+fn async_plan_of_script(s: &Value, nkeys: usize, nns: usize) -> Option<Vec<AStep>> {
+	let ops = s["ops"].as_array().unwrap();
+	let mut issue_no: HashMap<usize, usize> = HashMap::new(); // position in ops -> index of issue
+	let mut plan = Vec::new();
+	let mut n = 0usize;
+	for (i, o) in ops.iter().enumerate() {
+		if o["op"] == "await" {
+			let pos = o["k"].as_u64().unwrap() as usize - 1;
+			plan.push(AStep::Drive(vec![*issue_no.get(&pos)?], false));
+		} else {
+			let op = parse_fs_op(o);
+			let valid = match &op {
+				FsOp::List(x) => *x <= nns,
+				FsOp::Write(k, _) | FsOp::Read(k) | FsOp::Remove(k, _) => *k >= 1 && *k <= nkeys,
+			};
+			if !valid {
+				return None;
+			}
+			issue_no.insert(i, n);
+			n += 1;
+			plan.push(AStep::Issue(op));
+		}
+	}
+	Some(plan)
+}
+
+/// seeded plan: batches of operations (mostly on one hot key) issued in one order and driven in
+/// reverse / permuted order, one by one or all at once
+fn random_async_plan(rng: &mut StdRng, nkeys: usize, nns: usize, hot: usize, hot_ns: usize, batches: usize) -> Vec<AStep> {
+	let mut plan = Vec::new();
+	let mut issued = 0usize;
+	let mut v = 1u32;
+	for _ in 0..batches {
+		let n = rng.gen_range(2..=5);
+		let first = issued;
+		for _ in 0..n {
+			let k = if rng.gen_bool(0.75) { hot } else { rng.gen_range(1..=nkeys) };
+			let op = match rng.gen_range(0..100) {
+				0..=44 => {
+					v += 1;
+					FsOp::Write(k, v)
+				},
+				45..=64 => FsOp::Remove(k, rng.gen_bool(0.5)),
+				65..=84 => FsOp::Read(k),
+				_ => FsOp::List(if rng.gen_bool(0.7) { hot_ns } else { rng.gen_range(0..=nns) }),
+			};
+			plan.push(AStep::Issue(op));
+			issued += 1;
+		}
+		let mut order: Vec<usize> = (first..issued).collect();
+		match rng.gen_range(0..4) {
+			0 => order.reverse(),
+			1 => order.shuffle(rng),
+			2 => {
+				order.reverse();
+				plan.push(AStep::Drive(order.clone(), true));
+				order.clear();
+			},
+			_ => {
+				order.shuffle(rng);
+				plan.push(AStep::Drive(order.clone(), true));
+				order.clear();
+			},
+		}
+		for i in order {
+			plan.push(AStep::Drive(vec![i], false));
+		}
+		// look at the result of the batch
+		plan.push(AStep::Issue(FsOp::Read(hot)));
+		plan.push(AStep::Drive(vec![issued], false));
+		issued += 1;
+		plan.push(AStep::Issue(FsOp::List(hot_ns)));
+		plan.push(AStep::Drive(vec![issued], false));
+		issued += 1;
+	}
+	plan
 }
 
 fn fs_main(a: &Args) {
@@ -310,8 +587,15 @@ fn fs_main(a: &Args) {
 	let base = PathBuf::from(&a.dir);
 	let _ = std::fs::create_dir_all(&base);
 
+	let rt = tokio::runtime::Builder::new_multi_thread().worker_threads(4).build().expect("tokio runtime");
+	let mut async_runs = 0usize;
+	let mut async_ops = 0usize;
+
 	// ---- sequential scripts (each on both store versions)
 	for (si, s) in scripts.iter().enumerate() {
+		if s["async"] == json!(true) {
+			continue;
+		}
 		for kind in ["v1", "v2"] {
 			run += 1;
 			let lay = s["layout"].as_u64().map(|x| x as usize).unwrap_or(si % 4);
@@ -339,6 +623,52 @@ fn fs_main(a: &Args) {
 			let _ = std::fs::remove_dir_all(&dir);
 		}
 	}
+
+	// ---- asynchronous scripts (issue order / drive order from TLC), each on both store versions
+	for (si, s) in scripts.iter().enumerate() {
+		if s["async"] != json!(true) {
+			continue;
+		}
+		for kind in ["v1", "v2"] {
+			run += 1;
+			async_runs += 1;
+			let lay = s["layout"].as_u64().map(|x| x as usize).unwrap_or(si % 4);
+			let (keys, nss) = layout(lay);
+			let plan = match async_plan_of_script(s, keys.len(), nss.len()) {
+				Some(p) => p,
+				None => {
+					eprintln!("async script {} does not fit layout {}", si, lay);
+					std::process::exit(3);
+				},
+			};
+			let dir = base.join(format!("a{}", run));
+			let mut evs = Vec::new();
+			async_ops += run_async_on(&rt, kind, &dir, &keys, &nss, &plan, false, &mut evs);
+			npanics += evs.iter().filter(|e| e.v["ev"] == "panic").count();
+			emit_fs_run_mode(&mut tw, run, kind, lay, ASYNC_SLOTS, false, &keys, &mut evs, "async");
+			let _ = std::fs::remove_dir_all(&dir);
+		}
+	}
+
+	// ---- seeded asynchronous runs
+	let mut arng = StdRng::seed_from_u64(a.seed ^ 0xA51C);
+	for ri in 0..a.async_random {
+		run += 1;
+		async_runs += 1;
+		let kind = if ri % 2 == 0 { "v1" } else { "v2" };
+		let lay = (ri / 2) % 4;
+		let (keys, nss) = layout(lay);
+		let hot = arng.gen_range(1..=keys.len());
+		let plan = random_async_plan(&mut arng, keys.len(), nss.len(), hot, keys[hot - 1].ns, 6);
+		let big = ri % 4 >= 2;
+		let dir = base.join(format!("ar{}", run));
+		let mut evs = Vec::new();
+		async_ops += run_async_on(&rt, kind, &dir, &keys, &nss, &plan, big, &mut evs);
+		npanics += evs.iter().filter(|e| e.v["ev"] == "panic").count();
+		emit_fs_run_mode(&mut tw, run, kind, lay, ASYNC_SLOTS, big, &keys, &mut evs, "async");
+		let _ = std::fs::remove_dir_all(&dir);
+	}
+	nops += async_ops;
 
 	// ---- seeded multi-threaded drivers
 	let mut rng = StdRng::seed_from_u64(a.seed ^ 0xC19);
@@ -419,7 +749,8 @@ fn fs_main(a: &Args) {
 	put_summary(
 		a,
 		json!({"runs":run,"ops":nops,"panics":npanics,"concurrent_runs":concurrent_runs,
-			"script_runs":run-concurrent_runs,"events":tw.lines})
+			"script_runs":run-concurrent_runs-async_runs,"async_runs":async_runs,"async_ops":async_ops,
+			"events":tw.lines})
 	);
 }
 
